@@ -43,9 +43,10 @@ const (
 	opWriteString  // io.WriteString(w, s): uses a WriteString fast path if the writer has one
 	opBeforeNested // a hook that registers another hook when it runs
 	opHijack       // Hijack() through the wrapper (underlying writer may or may not support it)
+	opPush         // Push() through the wrapper (the spy never supports it)
 )
 
-var opNames = []string{"WriteHeader", "Write", "Flush", "Before", "Read", "Write(empty)", "io.Copy", "io.WriteString", "Before(nesting)", "Hijack"}
+var opNames = []string{"WriteHeader", "Write", "Flush", "Before", "Read", "Write(empty)", "io.Copy", "io.WriteString", "Before(nesting)", "Hijack", "Push"}
 
 type op struct {
 	Kind      int
@@ -148,6 +149,16 @@ func rwFlame() *flamego.Flame {
 	return theFlame
 }
 
+// regAtOf finds the operation that registered hook id.
+func regAtOf(ops []op, id int) (int, bool) {
+	for i, x := range ops {
+		if (x.Kind == opBefore || x.Kind == opBeforeNested) && x.HookID == id {
+			return i, true
+		}
+	}
+	return 0, false
+}
+
 // badStatus makes one WriteHeader of the history carry a code the underlying writer refuses.
 func badStatus(fg *tape.Stream, ops []op) {
 	if !fg.Chance(200) {
@@ -187,7 +198,7 @@ func (Engine) Run(t *tape.Tape, o eng.Opts) *eng.Result {
 	hookID := 0
 	for i := 0; i < nops; i++ {
 		gen.Begin("op")
-		k := gen.Weighted(5, 6, 3, 4, 3, 1, 2, 2, 1, 1)
+		k := gen.Weighted(5, 6, 3, 4, 3, 1, 2, 2, 1, 1, 1)
 		x := op{Kind: k}
 		switch k {
 		case opWriteHeader:
@@ -307,6 +318,8 @@ func (Engine) Run(t *tape.Tape, o eng.Opts) *eng.Result {
 					r.n, r.err = n, err != nil
 				case opHijack:
 					_, _, _ = w.(http.Hijacker).Hijack()
+				case opPush:
+					_ = w.Push("/pushed", nil)
 				case opBeforeNested:
 					id := x.HookID
 					w.Before(func(rw flamego.ResponseWriter) {
@@ -525,6 +538,22 @@ func (Engine) Run(t *tape.Tape, o eng.Opts) *eng.Result {
 			}
 		}
 		_ = i
+	}
+	// a function registered after the status has reached the underlying writer can no longer run
+	// "before the status reaches the underlying writer": it must not run at all
+	if spy.Code != 0 {
+		trig := -1
+		for i := range recs {
+			if recs[i].spyAfter != 0 {
+				trig = i
+				break
+			}
+		}
+		for _, h := range hooks {
+			if at, ok := regAtOf(ops, h.id); ok && trig >= 0 && at > trig && !h.nested {
+				viol("hooks-before-status", "BeforeFunc "+itoa(h.id)+" was registered after the status had been sent (operation "+itoa(at)+" > "+itoa(trig)+") and ran nevertheless")
+			}
+		}
 	}
 	// registration order vs run order, per triggering operation
 	regAt := map[int]int{}
